@@ -100,7 +100,19 @@ def run_op(op):
     import pyubx2
 
     k = op[0]
+    scrib = bool(op) and op[-1] == "scribble"
+    if scrib:
+        op = op[:-1]
     try:
+        if scrib and k in ("parse", "build-kw", "build-payload"):
+            # the caller edits, in place, the mutable values of the message it got
+            if k == "parse":
+                mm = pyubx2.UBXReader.parse(bytes(op[1]), msgmode=op[2], parsebitfield=op[3])
+            elif k == "build-kw":
+                mm = pyubx2.UBXMessage(bytes(op[1])[0:1], bytes(op[1])[1:2], op[2], **dict(op[3]))
+            else:
+                mm = pyubx2.UBXMessage(bytes(op[1])[0:1], bytes(op[1])[1:2], op[2], payload=bytes(op[3]))
+            return "scribbled:" + str(C.scribble(mm))
         if k == "parse":
             m = pyubx2.UBXReader.parse(bytes(op[1]), msgmode=op[2], parsebitfield=op[3],
                                        validate=op[4] if len(op) > 4 else 1)
@@ -175,6 +187,9 @@ def probe_ops():
         ["build-kw", b"\x06\x01", 1, [["msgClass", 300]]],                     # overflow -> error
         ["build-kw", b"\x01\x07", 0, [["lat", 52.5], ["numSV", 12], ["gnssFixOk", 1]]],
         ["build-kw", b"\x06\x3e", 1, [["numConfigBlocks", 2], ["gnssId_01", 0], ["gnssId_02", 6], ["enable_02", 1]]],
+        ["build-kw", b"\x0a\x31", 0, [["version", 0], ["numRfBlocks", 1]]],     # MON-SPAN: spectrum left at its default
+        ["build-kw", b"\x02\x73", 1, [["version", 1]]],                        # RXM-QZSSL6: msgBytes default
+        ["build-kw", b"\x0a\x31", 0, [["version", 0], ["numRfBlocks", 2]]],
         ["build-payload", b"\x06\x01", 1, b"\x01\x03\x00\x01\x00\x00\x00\x00"],
         ["build-payload", b"\x99\x01", 1, b"\x01"],
         ["config", "set", 1, 0, [["CFG_UART1_BAUDRATE", 9600], [0x40520001, 115200]]],
@@ -184,6 +199,8 @@ def probe_ops():
         ["helper", "cfgkey2name", 0x20930001],
         ["helper", "cfgkey2name", 0x30FF0001],
         ["helper", "val2bytes", 513, "U002"],
+        ["parse", f(b"\x0a", b"\x31", bytes([0, 1, 0, 0]) + bytes(range(256)) + bytes(16)), 0, 1],   # MON-SPAN array
+        ["parse", f(b"\x02", b"\x73", bytes(14) + bytes(range(250))), 0, 1],                        # RXM-QZSSL6 array
         ["parse", f(b"\x0b", b"\x30", bytes(range(40))), 0, 1],                  # AID-ALM GET: 8 data words
         ["parse", f(b"\x0b", b"\x30", b"\x05"), 2, 1],                          # AID-ALM POLL: svid
         ["parse", f(b"\x0b", b"\x31", b"\x07"), 2, 1],
@@ -597,7 +614,14 @@ def any_op():
                                              + alias_items()),
                              max_size=4)).map(lambda t: ["config", t[0], t[1], t[2], t[3]])
     strm = streams.garbage_streams(5).map(lambda it: ["stream", streams.stream_bytes(it), 0])
-    return st.one_of(pick, pick, pick, cfg, strm)
+    scr = st.sampled_from([
+        ["build-kw", b"\x0a\x31", 0, [["version", 0], ["numRfBlocks", 1]], "scribble"],
+        ["build-kw", b"\x02\x73", 1, [["version", 1]], "scribble"],
+        ["build-kw", b"\x02\x73", 0, [["version", 1]], "scribble"],
+        ["parse", codec.ubx_frame(b"\x0a", b"\x31", bytes([0, 1, 0, 0]) + bytes(range(256)) + bytes(16)), 0, 1, "scribble"],
+        ["parse", codec.ubx_frame(b"\x02", b"\x73", bytes(14) + bytes(range(250))), 0, 1, "scribble"],
+    ])
+    return st.one_of(pick, pick, pick, cfg, strm, scr)
 
 
 def run_shard(spec, ctx, acc):
